@@ -1124,8 +1124,9 @@ class PDSLabelEncoder(ODLEncoder):
                         ):
                             return False
 
-        # Item 2, no repeated keys:
-        keys = list(group.keys())
+        # Item 2, no repeated keys (keywords are written in upper case,
+        # so "a" and "A" are one and the same keyword in the label):
+        keys = [str(k).upper() for k in group.keys()]
         if len(keys) != len(set(keys)):
             return False
 
